@@ -36,6 +36,8 @@ pub enum TyD {
     Slice(Box<TyD>),
     UStruct,
     UEnum,
+    UPoint,
+    UWrap,
 }
 
 impl TyD {
@@ -73,6 +75,8 @@ impl TyD {
             TyD::Slice(t) => format!("&[{}]", t.text()),
             TyD::UStruct => "UserS".into(),
             TyD::UEnum => "UserE".into(),
+            TyD::UPoint => "UserP".into(),
+            TyD::UWrap => "UserW".into(),
         }
     }
 
@@ -85,6 +89,8 @@ impl TyD {
             TyD::Slice(t) => format!("Ty::Slice(&{})", t.static_expr()),
             TyD::UStruct => "Ty::UStruct".into(),
             TyD::UEnum => "Ty::UEnum".into(),
+            TyD::UPoint => "Ty::UPoint".into(),
+            TyD::UWrap => "Ty::UWrap".into(),
             other => format!("Ty::{:?}", other),
         }
     }
@@ -119,9 +125,20 @@ impl TyD {
                 format!("({e}).as_seq().iter().map(|{v}| {}).collect::<Vec<_>>()", t.conv(&v, depth + 1))
             }
             TyD::UStruct => format!("{{ let (__i, __n) = ({e}).as_ustruct(); UserS {{ id: __i, name: __n.to_string() }} }}"),
+            TyD::UPoint => format!("{{ let __p = ({e}).as_tup(); UserP {{ x: __p[0].as_u() as u32, y: __p[1].as_u() as u16 }} }}"),
+            TyD::UWrap => format!("{{ let __p = ({e}).as_tup(); UserW(__p[0].as_u() as u8) }}"),
             TyD::UEnum => format!(
                 "{{ let (__v, __x, __s) = ({e}).as_uenum(); match __v {{ 0 => UserE::A, 1 => UserE::B(__x as u8), _ => UserE::C {{ x: __x as i16, s: __s.to_string() }} }} }}"
             ),
+        }
+    }
+
+    pub fn is_copy(&self) -> bool {
+        match self {
+            TyD::String | TyD::StrRef | TyD::Vec(_) | TyD::Slice(_) | TyD::UStruct | TyD::UEnum => false,
+            TyD::Tup(ts) => ts.iter().all(|t| t.is_copy()),
+            TyD::Opt(t) => t.is_copy(),
+            _ => true,
         }
     }
 
@@ -158,6 +175,8 @@ pub struct FnSpec {
     pub explicit_global_scope: bool,
     /// rotate the attribute list by this many positions (order must not matter)
     pub attr_rotation: usize,
+    /// write destructuring patterns for parameters of Copy tuple / struct / tuple-struct type
+    pub destructure: bool,
 }
 
 impl FnSpec {
@@ -185,6 +204,7 @@ impl FnSpec {
             pad: 0,
             explicit_global_scope: false,
             attr_rotation: 0,
+            destructure: false,
         }
     }
 
@@ -265,8 +285,25 @@ impl FnSpec {
             Receiver::RefMut => params.push("&mut self".into()),
             Receiver::Value => params.push("self".into()),
         }
+        let mut rebuild: Vec<String> = Vec::new();
         for (i, t) in self.args.iter().enumerate() {
-            params.push(format!("a{i}: {}", t.text()));
+            match t {
+                TyD::UPoint if self.destructure => {
+                    params.push(format!("UserP {{ x: a{i}_x, y: a{i}_y }}: UserP"));
+                    rebuild.push(format!("let a{i} = UserP {{ x: a{i}_x, y: a{i}_y }};"));
+                }
+                TyD::UWrap if self.destructure => {
+                    params.push(format!("UserW(a{i}_0): UserW"));
+                    rebuild.push(format!("let a{i} = UserW(a{i}_0);"));
+                }
+                TyD::Tup(ts) if self.destructure && ts.iter().all(|t| t.is_copy()) => {
+                    let names: Vec<String> = (0..ts.len()).map(|j| format!("a{i}_{j}")).collect();
+                    let tup = format!("({}{})", names.join(", "), if names.len() == 1 { "," } else { "" });
+                    params.push(format!("{tup}: {}", t.text()));
+                    rebuild.push(format!("let a{i} = {tup};"));
+                }
+                _ => params.push(format!("a{i}: {}", t.text())),
+            }
         }
         let mut parts: Vec<String> = Vec::new();
         if self.receiver != Receiver::None {
@@ -294,6 +331,9 @@ impl FnSpec {
         );
         if self.receiver != Receiver::None {
             let _ = writeln!(out, "{indent}    let __recv: &UserS = &self;");
+        }
+        for r in &rebuild {
+            let _ = writeln!(out, "{indent}    {r}");
         }
         for g in 0..self.gates {
             let _ = writeln!(out, "{indent}    vrt::gate({g}).await;");
@@ -388,6 +428,33 @@ pub enum UserE {
     A,
     B(u8),
     C { x: i16, s: String },
+}
+
+#[derive(Debug, Clone, Copy, PartialEq)]
+pub struct UserP {
+    pub x: u32,
+    pub y: u16,
+}
+
+#[derive(Debug, Clone, Copy, PartialEq)]
+pub struct UserW(pub u8);
+
+impl cachelito_core::DefaultCacheableKey for UserP {}
+impl cachelito_core::DefaultCacheableKey for UserW {}
+
+impl Enc for UserP {
+    fn enc(&self, out: &mut Vec<u8>) {
+        out.push(b'P');
+        self.x.enc(out);
+        self.y.enc(out);
+    }
+}
+
+impl Enc for UserW {
+    fn enc(&self, out: &mut Vec<u8>) {
+        out.push(b'W');
+        self.0.enc(out);
+    }
 }
 
 impl cachelito_core::DefaultCacheableKey for UserS {}
@@ -750,6 +817,86 @@ pub fn static_corpus() -> Vec<FnSpec> {
             v.push(s);
         }
     }
+    // gated async bodies behind an invalidate_on check (a refresh that suspends or is dropped)
+    for &p in &[Policy::Fifo, Policy::Lru, Policy::Lfu] {
+        for (k, &limit) in [None, Some(2usize)].iter().enumerate() {
+            let i = id();
+            let mut s = FnSpec::new(i, &format!("gate_a_inv_{:04}", i), "gate", Flavour::Async);
+            s.policy = Some(p);
+            s.limit = limit;
+            s.gates = 1 + ((k as u32 + i) % 2) as u8;
+            s.tags = vec!["gate".into()];
+            s.invalidate_on = true;
+            v.push(s);
+        }
+    }
+    // destructuring parameter patterns over Copy types (the pattern is also a valid key expression)
+    {
+        use TyD::*;
+        let shapes: std::vec::Vec<std::vec::Vec<TyD>> = vec![
+            vec![UPoint],
+            vec![UWrap, U8],
+            vec![Tup(vec![U32, U16])],
+            vec![UPoint, UPoint],
+            vec![Tup(vec![U8, Char]), UWrap],
+            vec![U32, UPoint, Tup(vec![Bool, U8])],
+        ];
+        for (k, shape) in shapes.into_iter().enumerate() {
+            for &fl in &flavours {
+                for &destructure in &[true, false] {
+                    let i = id();
+                    let mut s = FnSpec::new(i, &format!("pat_{}_{:02}_{:04}", fl_tag(fl), k, i), "pat", fl);
+                    s.args = shape.clone();
+                    s.destructure = destructure;
+                    v.push(s);
+                }
+            }
+        }
+    }
+    // larger caches: bulk fills and sweeps (thresholds inside the library show only at scale)
+    for &fl in &flavours {
+        for &p in &[Policy::Fifo, Policy::Lru, Policy::Lfu] {
+            for &limit in &[40usize, 100] {
+                let i = id();
+                let mut s = FnSpec::new(i, &format!("bulk_{}_{:04}", fl_tag(fl), i), "bulk", fl);
+                s.policy = Some(p);
+                s.limit = Some(limit);
+                if fl != Flavour::Thread {
+                    s.tags = vec!["bulk".into()];
+                }
+                v.push(s);
+            }
+        }
+    }
+    // legal extreme attribute values
+    for &fl in &flavours {
+        for &p in &[Policy::Fifo, Policy::Lru, Policy::Tlru] {
+            for (k, (ttl, limit)) in [(Some(u64::MAX), None), (Some(1u64 << 63), Some(2usize)), (Some(u64::MAX), Some(usize::MAX)), (None, Some(usize::MAX))].into_iter().enumerate() {
+                let i = id();
+                let mut s = FnSpec::new(i, &format!("edge_{}_{}_{:04}", fl_tag(fl), k, i), "edge", fl);
+                s.policy = Some(p);
+                s.ttl = ttl;
+                s.limit = limit;
+                v.push(s);
+            }
+        }
+        for (k, (wtxt, w)) in [("2000.0", 2000.0f64), ("1.7976931348623157e308", f64::MAX), ("1e-300", 1e-300)].into_iter().enumerate() {
+            let i = id();
+            let mut s = FnSpec::new(i, &format!("edge_{}_w{}_{:04}", fl_tag(fl), k, i), "edge", fl);
+            s.policy = Some(Policy::Tlru);
+            s.limit = Some(2);
+            s.frequency_weight = Some((wtxt.to_string(), w));
+            v.push(s);
+        }
+        for (k, (mtxt, m)) in [("18446744073709551615", usize::MAX), ("\"17179869183GB\"", 17179869183usize << 30)].into_iter().enumerate() {
+            let i = id();
+            let mut s = FnSpec::new(i, &format!("edge_{}_m{}_{:04}", fl_tag(fl), k, i), "edge", fl);
+            s.policy = Some(Policy::Lru);
+            s.limit = Some(2);
+            s.max_memory = Some((mtxt.to_string(), m));
+            v.push(s);
+        }
+    }
     v
 }
 
@@ -776,7 +923,7 @@ impl Rng {
 
 fn random_ty(r: &mut Rng, depth: usize, top: bool) -> TyD {
     use TyD::*;
-    let leaf = |r: &mut Rng| match r.below(14) {
+    let leaf = |r: &mut Rng| match r.below(16) {
         0 => U8,
         1 => U32,
         2 => U64,
@@ -789,6 +936,8 @@ fn random_ty(r: &mut Rng, depth: usize, top: bool) -> TyD {
         10 => F64,
         11 => UStruct,
         12 => UEnum,
+        13 => UPoint,
+        14 => UWrap,
         _ => I32,
     };
     if depth >= 2 {
@@ -908,6 +1057,7 @@ pub fn random_spec(r: &mut Rng, id: u32, registry_mode: bool) -> FnSpec {
     }
     s.explicit_global_scope = flavour == Flavour::Global && r.chance(1, 4);
     s.attr_rotation = r.below(8) as usize;
+    s.destructure = r.chance(1, 3);
     s
 }
 
